@@ -1,4 +1,4 @@
-import Comdex.Lemmas.AmmMatchSums
+import Comdex.Lemmas.AmmMatchAccount
 /-!
 # C05 — Batch matching conserves coins and never fills an order beyond its limits
 
@@ -291,6 +291,42 @@ theorem base_conserved_partial_buys (os : List Order) (amt p : Int) (hp : 0 < p)
     (hb : ∀ o ∈ os, o.dir = .buy) (hle : amt ≤ totalMatchable os p) :
     ∃ plan, planOrders (os.length + 1) os amt p = some plan ∧ planSum plan = amt :=
   base_conserved_partial os amt p hp hamt hw (lossless_buys _ os amt p hp hamt hw hb hle)
+
+/-- **`MatchAtSinglePrice` on any book of distinct well-formed orders — base coin, PARTIAL; quote coin, exact.**
+With `x` the amount found by `FindMatchableAmountAtSinglePrice`: the buyers receive exactly `x` base coin
+(`ticksFilled` = sum of the decreases of the open amounts = base coin received by buyers / paid by sellers, see
+`Delta.buy_recv`, `Delta.sell_paid`); the sellers pay exactly `x` **if** nothing is lost in the re-runs of the pro-rata
+distribution on the one partially filled sell group (`ticksLossless`, decidable); and the returned `quoteCoinDiff` is
+exactly the quote coin paid by the buyers minus the quote coin received by the sellers. -/
+theorem base_conserved_partial_single (os : List Order) (hw : ∀ o ∈ os, Wf o) (hnd : os.Nodup) (p : Int) (hp : 0 < p)
+    (b' : Book) (q : Int) (h : matchAtSinglePrice (newBook os) p = .ok b' q) :
+    ∃ x, findMatchableAmount (newBook os) p = some x ∧ 0 < x ∧
+      q = ticksQuote (newBook os).buys b'.buys + ticksQuote (newBook os).sells b'.sells ∧
+      ticksFilled (newBook os).buys b'.buys = x ∧
+      (ticksLossless (newBook os).sells x p = true →
+        ticksFilled (newBook os).sells b'.sells = ticksFilled (newBook os).buys b'.buys) := by
+  obtain ⟨x, h1, h2, h3, h4, h5⟩ :=
+    matchAtSinglePrice_account (newBook os) p hp (newBook_ok os hw) (newBook_nodup os hnd) b' q h
+  exact ⟨x, h1, h2, h3, h4, fun hl => by rw [h5 hl, h4]⟩
+
+/-- **one iteration of the two-sided loop of `Match`** (`DistributeOrderAmountToTick` on a buy tick and on a sell tick with
+the same amount `X ≤` both ticks' matchable totals, match.go:283-294): the buy tick is filled for exactly `X`; the sell tick
+too if nothing is lost; both returned quote differences are exact.  (The composition over the iterations is not carried
+out in Lean; the monitor `base_conserved` checks it on every real result.) -/
+theorem base_conserved_partial_step (bt st : List Order) (X p : Int) (hp : 0 < p) (hX : 0 ≤ X)
+    (hb : ∀ o ∈ bt, Wf o ∧ o.dir = .buy) (hs : ∀ o ∈ st, Wf o) (hbn : bt.Nodup) (hsn : st.Nodup)
+    (hXb : X ≤ totalMatchable bt p)
+    (bt' st' : List Order) (q1 q2 : Int)
+    (h1 : distributeToTick bt X p = some (bt', q1)) (h2 : distributeToTick st X p = some (st', q2)) :
+    filledOf bt bt' = X ∧ q1 = quoteOf bt bt' ∧ q2 = quoteOf st st' ∧
+    (groupsLossless (groupOrders st) X p = true → filledOf st st' = filledOf bt bt') := by
+  obtain ⟨a1, a2⟩ := distributeToTick_account bt X p hp hX (fun o ho => (hb o ho).1) hbn bt' q1 h1
+  obtain ⟨c1, c2⟩ := distributeToTick_account st X p hp hX hs hsn st' q2 h2
+  have hl : groupsLossless (groupOrders bt) X p = true := by
+    apply groupsLossless_buys _ X p hp hX
+    · intro g hg o ho; exact hb o (mem_groupOrders bt g hg o ho)
+    · rw [sum_groupOrders]; exact hXb
+  exact ⟨a2 hl, a1, c1, fun h => by rw [c2 h, a2 hl]⟩
 
 /-! ### the witness of defect D2 (DESIGN.md §7): two sells 15000 @ 0.0001 of one batch, a buy 16000 @ 0.0002, last price 0.00009 -/
 
